@@ -67,7 +67,7 @@ CHECKS = {
                 ref='3/C12'),
     'C13': dict(cat='other', engine='E2',
                 technique='bounded symbolic execution of the real VectorMirror / TupleMirror / Gate templates on symbolic vectors, buffers and scaling factors for every ordered index list within the bound; gather/scatter, frequency and emulated-synchronisation identities decided by z3',
-                text='Partial (stated): process-local building blocks only. For every ordered index list on vectors of length <= 3 (thorough 4), scalar and blocked, with buffer offsets: gather copies exactly the mirrored entries, scatter_axpy adds alpha*buffer exactly there; TupleMirror (2, 3 components) uses consistent buffer ranges; Gate::compile frequencies are 1/(1+#mirrors containing the dof) for dofs shared by up to 3 (4) neighbours, weighted dot and from_1_to_0 follow; an emulated sync of three patches around a cross point sums each shared dof exactly once.',
+                text='Partial (stated): process-local building blocks only. For every ordered index list on vectors of length <= 3 (thorough 4), scalar and blocked, with buffer offsets: gather copies exactly the mirrored entries, scatter_axpy adds alpha*buffer exactly there; TupleMirror (2, 3 components) uses consistent buffer ranges; Gate::compile frequencies are 1/(1+#mirrors containing the dof) for dofs shared by up to 3 (4) neighbours, weighted dot and from_1_to_0 follow; an emulated sync of three patches around a cross point sums each shared dof exactly once; MatrixMirror (CSR, BCSR<2,3>) gather / scatter_axpy == mirrored part of the matrix.',
                 note='Trusted: SymReal, z3 5.1.0. Single process with the serial Dist::Comm: the real message exchange (SynchVectorTicket, MPI), Global::Vector/Matrix/Filter/Transfer on several ranks, Muxer/Splitter, AlgDofParti and result equality between different partitionings of a real mesh are outside.',
                 ref='3/C13'),
     'C14': dict(cat='other', engine='table dump + z3 LRA',
